@@ -4,7 +4,7 @@
 #include "contracts/common/dq_common.h"
 struct dispatch_source_s H_ds; struct dispatch_source_type_s H_type;
 #ifdef H_DR_TIMER_SIZED   /* the refs object is as large as a timer's refs, so the timer-only fields can be looked at */
-union { struct dispatch_source_refs_s r; struct dispatch_timer_source_refs_s t; } H_dru;
+union { struct dispatch_source_refs_s r; struct dispatch_timer_source_refs_s t; struct dispatch_unote_class_s c; } H_dru;   /* c: the view bit-fields are read through (du._du->...) */
 #define H_dr (H_dru.r)
 #else
 struct dispatch_source_refs_s H_dr;
